@@ -215,6 +215,15 @@ func (tt *TermTable) Eq(a, b *Term) *Term {
 			return tt.Not(a)
 		}
 	}
+	// equality of a concat with a constant splits (folds when one part is constant)
+	if b.isConst() && a.op == "concat" {
+		lw := a.args[1].w
+		return tt.And(tt.Eq(a.args[0], tt.Extract(b, b.w-1, lw)), tt.Eq(a.args[1], tt.Extract(b, lw-1, 0)))
+	}
+	if a.isConst() && b.op == "concat" {
+		lw := b.args[1].w
+		return tt.And(tt.Eq(b.args[0], tt.Extract(a, a.w-1, lw)), tt.Eq(b.args[1], tt.Extract(a, lw-1, 0)))
+	}
 	// push equality with a constant through ite with constant arms
 	if b.isConst() && a.op == "ite" && (a.args[1].isConst() || a.args[2].isConst()) {
 		return tt.Ite(a.args[0], tt.Eq(a.args[1], b), tt.Eq(a.args[2], b))
